@@ -59,9 +59,23 @@ func init() {
 
 // ---------- wire helpers ----------
 
+// c06Pad > 0: every query carries an OPT record with an EDNS0 padding option of that many octets, so that the
+// framed query is longer than 255 (and, for the larger values, 511 / 1023) octets: both octets of the length
+// prefix matter.  Set once per case (the reuse kinds run one case at a time per process).
+var c06Pad int
+
 func c06Query(mark int) []byte {
 	name := []byte(fmt.Sprintf("\x09m%08d\x04test", mark))
-	return hx.BuildQuery(uint16(0x4000+mark), name, 1, 1, true)
+	q := hx.BuildQuery(uint16(0x4000+mark), name, 1, 1, true)
+	if c06Pad > 0 {
+		q[11] = 1 // ARCOUNT
+		q = append(q, 0, 0, 41, 0x10, 0, 0, 0, 0, 0)
+		q = binary.BigEndian.AppendUint16(q, uint16(4+c06Pad))
+		q = binary.BigEndian.AppendUint16(q, 12) // padding
+		q = binary.BigEndian.AppendUint16(q, uint16(c06Pad))
+		q = append(q, make([]byte, c06Pad)...)
+	}
+	return q
 }
 
 // mark carried by a query wire (-1 when it is not one of ours)
@@ -261,6 +275,10 @@ func runReuse(id string, parts []string) (res string) {
 	}()
 	f := hx.Fields(parts)
 	evs := strings.Split(f["h"], ",")
+	c06Pad = 0
+	if f["pad"] != "" {
+		c06Pad = hx.MustAtoi(f["pad"])
+	}
 	scale := 1
 	for attempt := 0; ; attempt++ {
 		r, slow := c06Replay(f, evs, scale)
@@ -647,6 +665,10 @@ func runReuseStress(id string, parts []string) string {
 	delayUs := hx.MustAtoi(f["delayus"])
 	seed := int64(hx.MustAtoi(f["seed"]))
 	via := f["via"]
+	c06Pad = 0
+	if f["pad"] != "" {
+		c06Pad = hx.MustAtoi(f["pad"])
+	}
 
 	ln, err := net.Listen("tcp", "127.0.0.1:0")
 	if err != nil {
